@@ -1443,10 +1443,12 @@ pub fn explore(run: &Run, spec: &Spec, cfgs: &[Cfg], starts: &[Start], engine_ta
     let mut idx = vec![0usize; d];
     idx[0] = ai;
     let mut from = 0usize; // first position that differs from the previous word
+    crate::crashguard::set_case(crate::crashguard::head_of(&json!({"engine": "hist", "tag": engine_tag, "cfg": cfg, "start": st, "alphabet": spec.alphabet, "oracles": spec.oracles, "sync": spec.sync, "unsync": spec.unsync, "diff": spec.diff})));
     let mut pair = Pair::new(cfg, st, spec);
     let mut nwords = 0u64;
     loop {
       let word: Vec<Op> = idx.iter().map(|i| spec.alphabet[*i]).collect();
+      crate::crashguard::set_idx(&idx);
       let out = pair.run_word(st, &word, spec, from);
       nwords += 1;
       if nwords == 1 || nwords % 4096 == 0 {
@@ -1467,6 +1469,7 @@ pub fn explore(run: &Run, spec: &Spec, cfgs: &[Cfg], starts: &[Start], engine_ta
       if out.disabled_at.is_none() || !out.viol.is_empty() {
         // a complete (or violating) history
         run.eval(1);
+        crate::crashguard::EVALS.fetch_add(1, std::sync::atomic::Ordering::Relaxed);
       }
       if out.slow_paths > 0 && out.disabled_at.is_none() {
         run.nontrivial.insert(hash_of(&(ci, si, obs)));
@@ -1515,7 +1518,12 @@ pub fn explore(run: &Run, spec: &Spec, cfgs: &[Cfg], starts: &[Start], engine_ta
 pub fn replay(case: &Value) -> i32 {
   let cfg: Cfg = serde_json::from_value(case["cfg"].clone()).expect("cfg");
   let st: Start = serde_json::from_value(case["start"].clone()).expect("start");
-  let word: Vec<Op> = serde_json::from_value(case["word"].clone()).expect("word");
+  let word: Vec<Op> = if case.get("word").is_some() {
+    serde_json::from_value(case["word"].clone()).expect("word")
+  } else {
+    let al: Vec<Op> = serde_json::from_value(case["alphabet"].clone()).expect("alphabet");
+    case["idx"].as_array().expect("idx").iter().map(|i| al[i.as_u64().unwrap() as usize]).collect()
+  };
   let spec = Spec {
     alphabet: vec![],
     depth: word.len(),
